@@ -6,6 +6,7 @@ require (
 	github.com/octohelm/gengo v0.0.0
 	golang.org/x/mod v0.24.0
 	golang.org/x/text v0.24.0
+	golang.org/x/tools v0.32.0
 )
 
 require (
@@ -13,7 +14,6 @@ require (
 	github.com/google/go-cmp v0.7.0 // indirect
 	github.com/octohelm/x v0.0.0-20250409031213-9c254440c2b8 // indirect
 	golang.org/x/sync v0.13.0 // indirect
-	golang.org/x/tools v0.32.0 // indirect
 	mvdan.cc/gofumpt v0.8.0 // indirect
 )
 
